@@ -439,9 +439,10 @@ def adjust_p(pvalues, adjustment='holm-bonferroni'):
     n = len(pvalues)
     # calculate adjusted p-values
     if adjustment == 'holm-bonferroni':
-        order = rankdata(pvalues)
+        p_order = np.argsort(pvalues, kind='stable')
+        order = np.empty(n)
+        order[p_order] = np.arange(1, n + 1)
         adj_pvalues = np.minimum(pvalues*(n - order + 1), np.ones(n))
-        p_order = np.argsort(pvalues)
         prev_order = p_order[0]
         for i in p_order:
             adj_pvalues[i] = max(adj_pvalues[prev_order], adj_pvalues[i])
@@ -449,11 +450,13 @@ def adjust_p(pvalues, adjustment='holm-bonferroni'):
     elif adjustment == 'bonferroni':
         adj_pvalues = np.minimum(pvalues*n, np.ones(n))
     elif adjustment == 'benjamini-hochberg':
-        order = rankdata(pvalues)
+        p_order = np.argsort(pvalues, kind='stable')
+        order = np.empty(n)
+        order[p_order] = np.arange(1, n + 1)
         adj_pvalues = np.minimum(pvalues*(n / (order)), np.ones(n))
         # make sure non-decreasing
-        prev_order = np.argsort(pvalues)[::-1][0]
-        for i in np.argsort(pvalues)[::-1]:
+        prev_order = p_order[::-1][0]
+        for i in p_order[::-1]:
             adj_pvalues[i] = np.minimum(adj_pvalues[prev_order], adj_pvalues[i])
             prev_order = i
     else:
